@@ -448,6 +448,8 @@ _reg(Profile(name="cgraph", tmax_choices=(12, 24, 40, 110), n_ranks=(1, 2), n_th
              p_orphan_kernel=0.2, n_steps=(0, 3), p_kernel_zero=0.05, epoch_choices=(0, 1000000, 1700000000000000)))
 _reg(Profile(name="cgraph_bwd", tmax_choices=(24, 40, 110), n_ranks=(1, 2), n_threads=(2, 2), max_depth=3, p_zero_dur=0.0, p_launch=0.5, n_steps=(1, 3),
              p_bwd_thread=0.9, epoch_choices=(0, 1000000)))
+_reg(Profile(name="cgraph_big", tmax_choices=(600, 5000), n_ranks=(1, 1), n_threads=(1, 2), max_depth=4, p_zero_dur=0.0, p_launch=0.5, n_steps=(0, 2), n_pad=(130, 160),
+             epoch_choices=(0, 1000000)))
 _reg(Profile(name="kseq", tmax_choices=(24, 40, 110, 600), n_ranks=(1, 2), n_threads=(1, 2), max_depth=4, max_children=4, p_zero_dur=0.0, p_launch=0.6,
              p_missing_kernel=0.1, p_orphan_kernel=0.1, n_steps=(0, 2), p_kernel_zero=0.05, p_same_ts_as_launch=0.05,
              kernel_names=("gemm", "relu", "ncclKernel_AllReduce", "Memcpy DtoD (Device -> Device)", "bn")))
